@@ -256,7 +256,7 @@ fn invoke(root: &Path, w: &Workspace, inv: &Invocation) -> RunOut {
         _ => {}
     }
     cmd.current_dir(&cwd).env("CARGO", which_cargo()).env("CARGO_NET_OFFLINE", "true").env_remove("CI").env("CARGO_TARGET_DIR", root.join("target")).stdin(std::process::Stdio::null());
-    let out = cmd.output().expect("spawn cargo-libcnb");
+    let out = cmd.output().expect("harness: spawn cargo-libcnb");
     RunOut { code: out.status.code(), stdout: String::from_utf8_lossy(&out.stdout).to_string(), stderr: String::from_utf8_lossy(&out.stderr).to_string() }
 }
 
